@@ -43,14 +43,17 @@ LISTED = [
 OPT_AROUND = {'\\footnote[K]{X}', '\\section*[K]{X}', '\\caption[K]{X}', '\\newtheorem{X}[K]{K}', '\\newtheorem{X}{K}[K]',
               '\\fcolorbox[K]{X}[K]{K}{K}', '\\textcolor[K]{X}{K}', '\\newcommand{X}[1][K]{K}'}
 UNLISTED = ['\\zzother{K}', '\\label{K}', '\\zzbf{K} K', '\\LaTeX{}', '\\cite{K}', '$K$', 'K --- K', '\\index{K}']
-HIDDEN = ['%% %s\n', '\n%%%%%% LT-SKIP-BEGIN\n%s\n%%%%%% LT-SKIP-END\n', '\\LTskip{%s}', '\\verb|%s|', '\\begin{verbatim}\n%s\n\\end{verbatim}']
+HIDDEN = ['%% %s\n', '\n%%%%%% LT-SKIP-BEGIN\n%s\n%%%%%% LT-SKIP-END\n', '\\LTskip{%s}', '\\verb|%s|', '\\begin{verbatim}\n%s\n\\end{verbatim}',
+          '\\begin{lstlisting}\n%s\n\\end{lstlisting}', '\\begin{lstlisting}\n\\begin{document} %s \\end{document}\n\\end{lstlisting}',
+          '\\begin{tikzpicture}\\begin{scope} x \\end{scope} %s\\end{tikzpicture}', '\\begin{tikzpicture}\\begin{tikzpicture} \\end{tikzpicture} %s\\end{tikzpicture}',
+          '\n%%%%%% LT-SKIP-BEGIN\n%s\n%%%%%% LT-SKIP-END\n%%%%%% LT-SKIP-END\n']
 CONTEXT = [('', ''), ('{', '}'), ('\\zzwrap{', '}'), ('\\begin{itemize}\n\\item ', '\n\\end{itemize}'), ('\\begin{zzenv} ', ' \\end{zzenv}'),
            ('\\begin{minipage}{5cm} ', ' \\end{minipage}'), ('%c\n', ''), ('\\zzwrap{\\zzwrap{', '}}'), ('\\begin{enumerate}\\item[(a)] ', '\\end{enumerate}')]
 
 listed = st.tuples(st.just('L'), st.sampled_from(LISTED), st.integers(1, 3), st.sampled_from(CONTEXT), st.booleans())
 unlisted = st.tuples(st.just('U'), st.sampled_from(UNLISTED))
 hidden = st.tuples(st.just('H'), st.sampled_from(HIDDEN), st.sampled_from(LISTED))
-doc_s = st.tuples(st.lists(st.one_of(listed, listed, unlisted, hidden, st.just(('W',))), min_size=1, max_size=9),
+doc_s = st.tuples(st.lists(st.one_of(listed, listed, unlisted, hidden, st.just(('W',)), st.just(('E',))), min_size=1, max_size=9),
                   st.lists(st.sampled_from(['zzex', 'zzey', 'input', 'include', 'footnote', 'section', 'caption', 'newtheorem',
                                             'fcolorbox', 'href', 'textcolor', 'newcommand', 'zznever', 'LaTeX']), min_size=1, max_size=4, unique=True),
                   st.sampled_from(['*', '*', None]))
@@ -108,7 +111,11 @@ def render(doc):
     feats = set()
     declared_pack = pack == '*'
     for it in items:
-        if it[0] == 'W':
+        if it[0] == 'E':
+            # a left-over end marker without begin is an ordinary comment
+            r.src += '\n%%% LT-SKIP-END\n'
+            feats.add('stray-skip-end')
+        elif it[0] == 'W':
             r.src += r.word('H') + ' '
         elif it[0] == 'U':
             t = it[1]
@@ -120,7 +127,10 @@ def render(doc):
             sub = R()
             sub.n = r.n + 500
             fill(sub, templ.replace('\n', ' '), 1, False, False)
-            r.src += it[1] % sub.src + ' '
+            frame = it[1]
+            if ('lstlisting' in frame or 'tikzpicture' in frame) and not declared_pack:
+                frame = HIDDEN[4]       # without their packages these environments are unknown, their content is text
+            r.src += frame % sub.src + ' '
             if name in names:
                 feats.add('listed-in-hidden-context')
         else:
